@@ -270,7 +270,8 @@ class CreateProp(Prop):
 
 
 def hasher_mc(extra=()):
-    return [{"module": "HasherV2.tla", "cfg": "MC_HasherV2.cfg", "what": "three BEP52 hashers vs BEP52 reference, B=2"}] + list(extra)
+    return [{"module": "HasherV2.tla", "cfg": "MC_HasherV2.cfg", "what": "three BEP52 hashers vs BEP52 reference, B=2"},
+            {"module": "HasherV2.tla", "cfg": "MC_HasherV2_live.cfg", "what": "liveness: every per-file hasher run terminates"}] + list(extra)
 
 
 class C01(CreateProp):
@@ -294,6 +295,10 @@ class C01(CreateProp):
              "what": "mutant: trailing partial piece dropped"},
             {"module": "HasherV1.tla", "cfg": "MC_HasherV1_m_nocarry.cfg", "expect": "fail",
              "what": "mutant: partial piece not carried into next file"},
+            {"module": "HasherV1.tla", "cfg": "MC_HasherV1_live.cfg",
+             "what": "liveness: under weak fairness of next() every run reaches StopIteration (PROPERTY Terminates)"},
+            {"module": "HasherV1.tla", "cfg": "MC_HasherV1_m_spin.cfg", "expect": "fail",
+             "what": "mutant: an exhausted file is never left - TLC must find the non-terminating behaviour"},
         ]
 
     def cases(self, tier, rng):
